@@ -272,9 +272,21 @@ impl Report {
     }
 }
 
+thread_local! { pub static IN_GUARD: std::cell::Cell<u32> = std::cell::Cell::new(0); }
+/// panics of the library under test (inside `guarded`) are silent; the harness's own panics are printed
+pub fn install_panic_hook() {
+    std::panic::set_hook(Box::new(|info| {
+        if IN_GUARD.with(|g| g.get()) == 0 {
+            eprintln!("HARNESS PANIC: {}", info);
+        }
+    }));
+}
 /// run `f` catching panics; the panic message is returned as Err
 pub fn guarded<T>(f: impl FnOnce() -> T + std::panic::UnwindSafe) -> Result<T, String> {
-    match std::panic::catch_unwind(f) {
+    IN_GUARD.with(|g| g.set(g.get() + 1));
+    let r = std::panic::catch_unwind(f);
+    IN_GUARD.with(|g| g.set(g.get() - 1));
+    match r {
         Ok(v) => Ok(v),
         Err(e) => {
             let msg = if let Some(s) = e.downcast_ref::<&str>() {
